@@ -34,7 +34,7 @@ def finalize(agg, tier):
     c = agg["counters"]
     out = []
     for name in ("split_checked", "combine_checked", "dup_refused", "tape_coeff_matched",
-                 "secrecy_checked", "field_mul", "field_inv", "fork_trials", "symmetric_xor_index_pairs"):
+                 "secrecy_checked", "field_mul", "field_inv", "fork_trials", "symmetric_xor_index_pairs", "text_like_secrets", "text_like_shares_combined"):
         if not c.get(name):
             out.append("deciding counter %s is zero" % name)
     return out
@@ -162,11 +162,15 @@ def small(spec, ctx, SS, gf128, entropy):
     rng = ctx.rng
     for k in range(2, 7):
         for n in range(k, 7):
-            secrets = SECRETS + [rng.getrandbits(128) for _ in range(2)]
+            secrets = SECRETS + [rng.getrandbits(128) for _ in range(2)] + [int.from_bytes(text_like(rng), "big") for _ in range(3)]
             for si, secret in enumerate(secrets):
                 tape_bytes = bytes(rng.getrandbits(8) for _ in range(16 * (k - 1)))
                 if si == 0:
                     tape_bytes = bytes(16 * (k - 1))       # zero coefficients
+                if si >= len(SECRETS) + 2:
+                    ctx.count("text_like_secrets")
+                    if si == len(secrets) - 1:
+                        tape_bytes = b"".join(text_like(rng) for _ in range(k - 1))
                 shares, tape = split_with_tape(SS, entropy, k, n, secret, ssss, tape_bytes)
                 desc = ("small", ssss, k, n, si)
                 check_split(ctx, gf128, k, n, secret, ssss, shares, tape, tape_bytes, desc)
@@ -228,6 +232,13 @@ def large(spec, ctx, SS, gf128, entropy):
         ssss = rng.random() < 0.5
         secret = rng.choice(SECRETS + [rng.getrandbits(128)] * 4)
         tape_bytes = bytes(rng.getrandbits(8) for _ in range(16 * (k - 1)))
+        if rng.random() < 0.25:
+            # 16 octets that READ like something else - a decimal or hexadecimal number, blanks, a signed or floating point
+            # literal, base64: a secret and coefficients are octet strings, whatever they look like
+            secret = int.from_bytes(text_like(rng), "big")
+            if rng.random() < 0.5:
+                tape_bytes = b"".join(text_like(rng) for _ in range(k - 1))
+            ctx.count("text_like_secrets")
         shares, tape = split_with_tape(SS, entropy, k, n, secret, ssss, tape_bytes)
         if k <= 24 or rng.random() < 0.25:
             check_split(ctx, gf128, k, n, secret, ssss, shares, tape, tape_bytes, None)
@@ -266,6 +277,18 @@ def large(spec, ctx, SS, gf128, entropy):
             ctx.check(m == secret, "split:model-combine-disagrees",
                       "the reference Lagrange interpolation of the library's shares is not the secret",
                       lambda: {"k": k, "n": n, "ssss": ssss})
+        # arbitrary share VALUES (any 16 octets are a possible share), among them text-like ones
+        if k <= 8:
+            sel = [(i, text_like(rng) if rng.random() < 0.7 else rng.randbytes(16)) for i in rng.sample(range(1, n + 1), k)]
+            try:
+                got = SS.Shamir.combine(sel, ssss)
+                m = gf128.combine([(i, int.from_bytes(v, "big")) for i, v in sel], ssss)
+                ctx.check(got == _b(m), "combine:wrong-value-on-arbitrary-shares",
+                          "combine() of k arbitrary share values is not the reference interpolation at 0",
+                          lambda: {"k": k, "ssss": ssss, "shares": [(i, v.hex()) for i, v in sel], "got": bytes(got).hex(), "expected": hex(m)})
+                ctx.count("text_like_shares_combined")
+            except Exception as e:      # noqa
+                ctx.check(False, "combine:exception:" + type(e).__name__, "combine() raised on valid shares", {"exc": repr(e)})
         # shares built by the MODEL must be combined by the library
         ms = gf128.split(k, n, secret, [int.from_bytes(tape_bytes[j * 16:(j + 1) * 16], "big") for j in range(k - 1)], ssss)
         sel = rng.sample(ms, k)
@@ -276,6 +299,22 @@ def large(spec, ctx, SS, gf128, entropy):
                       lambda: {"k": k, "n": n, "ssss": ssss, "secret": hex(secret), "shares": [(i, hex(y)) for i, y in sel]})
         except Exception as e:      # noqa
             ctx.check(False, "combine:exception:" + type(e).__name__, "combine() raised on valid shares", {"exc": repr(e)})
+
+
+def text_like(rng):
+    r = rng.random()
+    if r < 0.4:
+        return bytes(rng.choice(b"0123456789") for _ in range(16))
+    if r < 0.55:
+        return bytes(rng.choice(b"0123456789abcdef") for _ in range(16))
+    if r < 0.65:
+        return bytes(rng.choice(b"0123456789ABCDEF") for _ in range(16))
+    if r < 0.75:
+        return rng.choice([b"+", b"-", b" ", b"0x", b"0b", b"1e", b"1."]) .ljust(16, bytes([rng.choice(b"0123456789")]))
+    if r < 0.85:
+        return rng.choice([b" " * 16, b"0" * 16, b"9" * 16, b"\n" * 16, b"1234567890123456", b"0000000000000001", b"               1",
+                           b"1               ", b"True            ", b"None            "])
+    return bytes(rng.choice(b"ABCDEFGHIJKLMNOPQRSTUVWXYZabcdefghijklmnopqrstuvwxyz0123456789+/=") for _ in range(16))
 
 
 def _elems(rng):
